@@ -23,7 +23,7 @@ EXPLANATION = (
     "callback receives the iterator's own key (+ record bytes), `_no_more_records = true` followed by a callback on every normal exit; "
     "R18.3 every send(generate_sequence_reset(N,true), destroy, custom) in retrans_callback/handle_resend_request has an explicit "
     "custom sequence number derived from the context (_begin/_last/BeginSeqNo), never from _next_send_seq, and the later store to "
-    "_next_send_seq is the announced N; R18.4 reject decision table over (begin>end, end≠0, begin=0). NOT decided: concrete stores.")
+    "_next_send_seq is the announced N; R18.4 reject decision table over (begin>end, end≠0, begin=0). R18.5 at the end of the records retrans_callback sends the closing gap fill and returns the session to continuous on every path. NOT decided: concrete stores.")
 
 S = 'FIX8::Session::'
 SEND_SEQ = S + '_next_send_seq'
@@ -311,6 +311,26 @@ def run(ctx):
         ctx.check((bool(reach & rej) == want_rej) and (bool(reach & act) == (not want_rej)), 'R18.4',
                   S + 'handle_resend_request#validate@%d%d%d' % (bgt, enz, bz), f.loc,
                   'begin>end:%s end!=0:%s begin=0:%s => %s' % (bgt, enz, bz, 'Reject only' if want_rej else 'replay only'))
+    # ---------------- R18.5 the answer is closed: once the persister reports the end of the records, the closing gap fill is sent and the session
+    # returns to continuous on every path (otherwise the next ResendRequest is ignored)
+    rc = prog.fn1(S + 'retrans_callback')
+    ctx.saw(rc)
+    rcfg = rc.cfg
+    nm = q.branches(rc, lambda a: a.strip(casts=True).k == 'MemberExpr' and a.strip(casts=True).decl.get('n') == '_no_more_records')
+    ctx.need(len(nm) == 1, 'retrans_callback: end-of-records decision not found')
+    stt = dict(prog.enum('FIX8::States::SessionStates')['e'])
+    cont = q.verts(rcfg, [c for c in rc.calls_to(S + 'do_state_change') if c.args and c.args[0].strip(casts=True).value == stt['st_continuous']])
+    closing = q.verts(rcfg, [c for c in rc.calls_to(S + 'send') if any(x.callee_qp == S + 'generate_sequence_reset' for x in q.calls_in(c))])
+    start = q.atom_edge(rcfg, nm[0], True)
+    p1 = q.escape_path(rcfg, start, cont)
+    ctx.check(bool(cont) and p1 is None, 'R18.5', S + 'retrans_callback#end.back-to-continuous', nm[0][1].loc,
+              'end of records: the session state returns to continuous on every path to the return',
+              'after the last record the callback can return without do_state_change(st_continuous): the session stays in resend_request_received and '
+              'handle_resend_request ignores every later ResendRequest', rcfg.describe_path(p1) if p1 else None)
+    p2 = q.escape_path(rcfg, start, closing)
+    ctx.check(bool(closing) and p2 is None, 'R18.5', S + 'retrans_callback#end.closing-gapfill', nm[0][1].loc,
+              'end of records: a closing SequenceReset-GapFill is sent on every path', None, rcfg.describe_path(p2) if p2 else None)
+    ctx.floor('R18.5', 2)
     ctx.floor('R18.1', 5)
     ctx.floor('R18.2', 20)
     ctx.floor('R18.3', 10)
